@@ -5,6 +5,7 @@ From PS Require Import Lib.Struct Model.Someip Model.SdCodec Model.Session Model
 From PS Require Import Model.StackTypes Model.Stack Model.StackIO.
 From PS Require Import Spec.TraceSpec Spec.StoreSpec Spec.AnnSpec.
 From PS Require Import Spec.C19Spec Spec.C07Spec Spec.C16Spec Spec.C01Spec Spec.C02Spec.
+From PS Require Model.ServiceStack Spec.C17Spec.
 
 Definition bad : sexp := L [A 255; A 255; A 255].
 
@@ -111,11 +112,19 @@ Definition dispatch_check (op : N) (arg : sexp) : option sexp :=
   | _ => None
   end.
 
+Definition check17_op (arg : sexp) : option sexp :=
+  match arg with
+  | L [sc; tr] => let? sc' := ServiceStack.d_sscenario sc in let? tr' := ServiceStack.d_strace tr in Some (L (map A (C17Spec.check_C17 sc' tr')))
+  | _ => None
+  end.
+
 Definition dispatch (op : N) (arg : sexp) : sexp :=
   if (1900 <? op) && (op <? 2000) then of_opt (dispatch_config op arg)
   else if (100 <? op) && (op <? 300) then of_opt (dispatch_codec op arg)
   else if (700 <? op) && (op <? 900) then of_opt (dispatch_session op arg)
   else if (1600 <? op) && (op <? 1700) then of_opt (dispatch_service op arg)
   else if op =? 3001 then of_opt (run_op arg)
+  else if op =? 3201 then of_opt (ServiceStack.srun_op arg)
+  else if op =? 3217 then of_opt (check17_op arg)
   else if (3001 <? op) && (op <? 3100) then of_opt (dispatch_check op arg)
   else bad.
